@@ -15,7 +15,8 @@ def main():
     for f in (patch, demo):
         if not os.path.exists(f):
             print('missing', f); return 2
-    r = subprocess.run([sys.executable, os.path.join(VERIF, 'tools/eval_patch.py'), patch, '--demo', demo, '--tests'], capture_output=True, text=True)
+    wt = f'/tmp/wt/{a.prop}'   # the demos assert that kernpy is imported from the seeder's own worktree
+    r = subprocess.run([sys.executable, os.path.join(VERIF, 'tools/eval_patch.py'), patch, '--demo', demo, '--tests', '--wt', wt], capture_output=True, text=True)
     try:
         res = json.loads(r.stdout)
     except Exception:
@@ -37,7 +38,7 @@ def main():
         'repo_head': head,
         'needs_to_manifest': open(notes).read().strip()[:1500] if os.path.exists(notes) else '',
         'what_was_run': [
-            'git apply patch.diff in a scratch worktree of /repo at repo_head (never in /repo)',
+            f'git apply patch.diff in the scratch worktree /tmp/wt/{a.prop} of /repo at repo_head (never in /repo); the demo asserts that path',
             'PYTHONPATH=<worktree> /venv/bin/python demo.py on the clean tree (exit 0) and on the patched tree (exit != 0)',
             'tools/run_baseline.py <worktree>: pinned suite, 276/276 stable tests pass with the patch',
             './check Cnn --repo <worktree> for all twenty properties',
